@@ -134,6 +134,18 @@ fn main() {
                     println!("  {} => {:?}; run() again => {}", part.trim(), r, again);
                 }
             }
+            other if other.starts_with("requote:") => {
+                // requote:<form> — evaluate the form, then hand (quote <result>) back to Vm::eval as a Cell
+                let (cell, _) = marwood::parse::parse_text(&other["requote:".len()..]).unwrap();
+                let result = vm.eval(&cell).unwrap();
+                let quoted = Cell::new_list(vec![Cell::new_symbol("quote"), result.clone()]);
+                let r = match catch_unwind(AssertUnwindSafe(|| vm.eval(&quoted))) {
+                    Ok(Ok(c)) => format!("{:#}", c),
+                    Ok(Err(e)) => format!("ERR {}", e),
+                    Err(_) => "<<PANIC>>".into(),
+                };
+                println!("  (quote {:#}) => {}", result, r);
+            }
             other if other.starts_with("repeat:") => {
                 // repeat:<n>:<form> — evaluate the form n times in one VM and report the size of the VM's debug rendering
                 // (proportional to heap capacity) before and after
